@@ -372,7 +372,16 @@ func (api *API) decodeArray(ctx context.Context, b []byte, value reflect.Value, 
 	}
 
 	// if it is an array of objects, handle the array like a slice
-	return api.decodeSlice(ctx, b, sliceValue, sliceValueType, ts, opts)
+	var bytesRead int
+	if err := decodeArrayViaSlice(value, func(sliceValue reflect.Value, sliceValueType reflect.Type) (err error) {
+		bytesRead, err = api.decodeSlice(ctx, b, sliceValue, sliceValueType, ts, opts)
+
+		return err
+	}); err != nil {
+		return 0, ierrors.WithStack(err)
+	}
+
+	return bytesRead, nil
 }
 
 func (api *API) decodeSlice(ctx context.Context, b []byte, value reflect.Value,
